@@ -117,6 +117,11 @@ def gen_case(rng, nops, kind="random"):
         elif k < 46:
             live = [i for i in range(nacq) if i not in gone]
             t = rng.choice(live) if live and rng.chance(6, 7) else rng.below(nacq + 1)
+            # A context cancellation that reaches a waiter whose sleep is already over but which has not been polled yet
+            # races inside the real code (tokio::select! in ctx.wait picks either ready branch: grant or Canceled are both
+            # legitimate). Keep the scripts deterministic: such a cancel is preceded by an ordinary (polling) advance.
+            if ops and ops[-1][0] == "advx" and t < nacq and [o for o in ops if o[0] == "acq"][t][2] == "ctx":
+                ops[-1][0] = "adv"
             ops.append(["cancel", t])
             if t < nacq and rng.chance(1, 2):
                 gone.add(t)
